@@ -66,7 +66,22 @@ SubAllowed(c) ==
 
 IsBig(c) == \/ "data" \in DOMAIN c /\ Len(c.data) > 2000
             \/ "nas" \in DOMAIN c /\ Len(c.nas) > 2000
-Init == cont = << >> /\ calls = << >> /\ failed = FALSE
+\* ---- argument sweeps: one sub-builder call with an argument from a wide pool on a minimal container (no interleaving with other
+\* calls, so the pools can be wide: every small TLV length, every transform type, the TV corner values, attribute / SPI lengths)
+SweepTransforms ==
+  { TrTLV(tt, tid, at, D(n, 40 + n)) : tt \in {1, 2}, tid \in {12, 65535}, at \in {14, 32767}, n \in (1..9) \cup {255, 256, 1000} }
+  \cup { TrTV(tt, 12, at, av) : tt \in {1, 5}, at \in {0, 14, 32767}, av \in {0, 1, 2, 255, 256, 65535} }
+  \cup { TrNone(tt, tid) : tt \in 1..5, tid \in {0, 1, 255, 256, 65535} }
+SweepPrograms ==
+  { << C("SecurityAssociation", TRUE, [x |-> 0]), C("Proposal", FALSE, [num |-> 1, proto |-> 1, spi |-> << >>]), C("Transform", FALSE, t) >> : t \in SweepTransforms }
+  \cup { << C("SecurityAssociation", TRUE, [x |-> 0]), C("Proposal", FALSE, [num |-> n % 256, proto |-> 3, spi |-> D(n, 41)]), C("Transform", FALSE, TrNone(1, 12)) >> :
+            n \in (0..9) \cup {16, 247, 248, 255} }
+  \cup { << C("Configuration", TRUE, [cft |-> 2]), C("ConfigurationAttribute", FALSE, [t |-> a, v |-> D(n, 42)]) >> : a \in {0, 1, 16384, 32767}, n \in (0..9) \cup {16, 255, 256} }
+  \cup { << C(f, TRUE, [x |-> 0]), C("IndividualTrafficSelector", FALSE, IF six THEN Sel6(pr, sp, ep, 43) ELSE Sel4(pr, sp, ep, 44)) >> :
+            f \in {"TrafficSelectorInitiator", "TrafficSelectorResponder"}, six \in BOOLEAN, pr \in {0, 255}, sp \in {0, 65535}, ep \in {0, 1, 65535} }
+
+Init == \/ cont = << >> /\ calls = << >> /\ failed = FALSE
+        \/ calls \in SweepPrograms /\ cont = Final(<< >>, calls) /\ failed = TRUE
 Build(c) == /\ CallEnabled(cont, c)
             /\ cont' = ApplyCall(cont, c).cont
             /\ calls' = Append(calls, c)
